@@ -188,7 +188,7 @@ type Error struct {
 }
 
 func (e Error) Exists() bool {
-	return e.Code != 0
+	return e.Code != 0 || e.Message != ""
 }
 
 func (e Error) Error() string {
